@@ -30,6 +30,14 @@ def count(tier, seed):
 
 def make_case(tier, seed, index):
     rng = gen.rng_for(seed, 7, index)
+    if index % simprop.CORPUS_EVERY == simprop.CORPUS_EVERY - 1:
+        # library / fixture model (several population types, real characteristic structures with denominators); its
+        # set-up quantities are scaled consistently, or one of them is pushed off by delta
+        from av import corpus
+
+        case = corpus.make_case(rng, max_steps=6)
+        case.update({"kind": "corpus", "mode": "none", "progbook": None, "init_class": str(rng.choice(["as-shipped", "scaled", "scaled", "one-off", "one-off", "one-off"])), "init_factor": float(rng.choice([0.5, 2.0, 1.0 + 1e-9, 1.0 + 1e-5, 1.001, 1.3, 0.7, 3.0])), "init_pick": float(rng.random())})
+        return case
     pf = {"n_junctions": (0, 2), "p_junction_init": 0.5, "p_timed": 0.25, "n_characs": (0, 0), "p_function": 0.3, "steps": (2, 8), "p_yfactor": 0.0, "n_pops": (1, 2)}
     spec = gen.gen_spec(rng, pf)
     ords = [c["name"] for c in spec["comps"] if c["kind"] == "ord"]
@@ -175,9 +183,12 @@ def init_targets(P, fw, pop):
     ps = P.parsets[0]
     t0 = P.settings.sim_start
     out = []
+    ptype = P.data.pops[pop]["type"] if pop in P.data.pops else None
     for df, kind in ((fw.characs, "charac"), (fw.comps, "comp")):
         for name, row in df.iterrows():
             if not row["setup weight"] > 0:
+                continue
+            if ptype is not None and "population type" in df.columns and row["population type"] != ptype:
                 continue
             par = ps.pars[name]
             from av.parref import interp_series
@@ -201,8 +212,24 @@ def run_case(case):
     from scipy.optimize import nnls
 
     R = ref.Recs()
-    spec = case["spec"]
-    P = gen.build_project(spec)
+    spec = case.get("spec")
+    if spec is None:
+        from av import corpus
+
+        P, _, _ = corpus.build(case)
+        R.count("corpus_cases")
+        ps0 = P.parsets[0]
+        setup = [n for df in (P.framework.characs, P.framework.comps) for n, row in df.iterrows() if row["setup weight"] > 0 and n in ps0.pars]
+        if case["init_class"] == "scaled":
+            for n in setup:
+                if not isinstance(P.framework.characs.loc[n]["denominator"] if n in P.framework.characs.index else None, str):  # fractions keep their value
+                    ps0.pars[n].meta_y_factor = case["init_factor"]
+        elif case["init_class"] == "one-off" and setup:
+            n = setup[int(case["init_pick"] * len(setup)) % len(setup)]
+            pops_ = list(ps0.pars[n].pops)
+            ps0.pars[n].y_factor[pops_[int(case["init_pick"] * 97) % len(pops_)]] = case["init_factor"]
+    else:
+        P = gen.build_project(spec)
     fw = P.framework
     snaps = {}
     charac_log = {"n": 0, "bad": None}
@@ -241,15 +268,17 @@ def run_case(case):
                 raise
             accepted = False
             exc = e
-    meta = spec["meta"]["init"]
+    meta = spec["meta"]["init"] if spec is not None else {"mode": "corpus", "class": "%s x%g" % (case["init_class"], case["init_factor"] if case["init_class"] != "as-shipped" else 1.0), "model": case["framework"].split("/")[-1]}
     R.count("mode[%s]" % meta["mode"])
-    R.count("class[%s]" % meta["class"])
-    pops = spec["pops"]
+    R.count("class[%s]" % (meta["class"] if spec is not None else case["init_class"]))
+    pops = spec["pops"] if spec is not None else list(P.data.pops.keys())
+    junc_names = [c["name"] for c in spec["comps"] if c["kind"] == "junc"] if spec is not None else [n for n, row in fw.comps.iterrows() if row["is junction"] == "y"]
     # independent feasibility per population
     infeasible = False
     feas_info = {}
-    comps = [c["name"] for c in spec["comps"] if c["kind"] in ("ord", "junc")]
+    all_comps = [c["name"] for c in spec["comps"] if c["kind"] in ("ord", "junc")] if spec is not None else None
     for pop in pops:
+        comps = all_comps if all_comps is not None else [n for n, row in fw.comps.iterrows() if row["population type"] == P.data.pops[pop]["type"]]
         tg = init_targets(P, fw, pop)
         if not tg:
             continue
@@ -277,7 +306,7 @@ def run_case(case):
         try:
             import atomica.calibration as C
 
-            pa = [p for p in spec["pars"] if p["db"] and not p["timed"]]
+            pa = [p for p in spec["pars"] if p["db"] and not p["timed"]] if spec is not None else []
             if pa:
                 val = C._calculate_objective([1.0], pars_to_adjust=[(pa[0]["name"], pops[0], 0.1, 10)], output_quantities=[(comps[0], pops[0], 1.0, "fractional")], parset=P.parsets[0].copy(), project=P)
                 if val == np.inf:
@@ -304,7 +333,7 @@ def run_case(case):
                 got = sum(pre[(pop, m)] for m in members)
                 src = "pre-flush"
             else:
-                if any(m in [c["name"] for c in spec["comps"] if c["kind"] == "junc"] for m in members):
+                if any(m in junc_names for m in members):
                     R.inc("initial-state=databook")
                     continue
                 got = sum(float(c["vals"][0]) for c in view.comps if c["pop"] == pop and c["name"] in members)
@@ -312,7 +341,7 @@ def run_case(case):
             R.count("init_quantities_checked")
             tol = (len(members) + 1) * 1e-6
             if not abs(got - val) <= tol + 1e-12 * abs(val):
-                R.bad("initial-state=databook", "C07:initial-quantity-off[%s,%s]" % (meta["mode"], "fraction" if name == "frac" else "number"), {"quantity": name, "pop": pop, "target": val, "got": got, "members": members, "source": src, "init": meta})
+                R.bad("initial-state=databook", "C07:initial-quantity-off[%s,%s]" % (meta["mode"], "fraction" if (name == "frac" or (name in fw.characs.index and isinstance(fw.characs.loc[name]["denominator"], str))) else "number"), {"quantity": name, "pop": pop, "target": val, "got": got, "members": members, "source": src, "init": meta})
             else:
                 R.ok("initial-state=databook")
     for c in view.comps:
@@ -352,6 +381,8 @@ def run_case(case):
             R.bad("live-characteristic=sum/denominator", "C07:live-characteristic-differs", charac_log["bad"])
         elif charac_log["n"]:
             R.ok("live-characteristic=sum/denominator", charac_log["n"])
+    if spec is None:
+        return {"records": R.records(), "stats": R.stats, "nontrivial": True, "sample": {"init": meta, "verdict": "accepted"}}
     s = dict(simprop.sample_of(spec))
     s["init"] = meta
     s["characs"] = [(c["name"], c["components"], c["denominator"], c.get("db"), c.get("setup")) for c in spec["characs"]]
